@@ -149,12 +149,17 @@ var summaryBufIo = map[string]Summary{
 	"bufio.NewReaderSize":       TwoArgPropagation,
 	"bufio.NewScanner":          SingleVarArgPropagation,
 	"(*bufio.Reader).ReadSlice": TwoArgPropagation,
+	// func (s *Scanner) Scan() bool
 	"(*bufio.Scanner).Scan": {
-		[][]int{{0}, {0, 1}},
-		[][]int{{0}, {0}},
+		[][]int{{0}},
+		[][]int{{0}},
 	},
-	"(*bufio.Scanner).Split": TwoArgPropagation,
-	"(*bufio.Scanner).Text":  SingleVarArgPropagation,
+	// func (s *Scanner) Split(split SplitFunc)
+	"(*bufio.Scanner).Split": {
+		[][]int{{0}, {1}},
+		[][]int{{}, {}},
+	},
+	"(*bufio.Scanner).Text": SingleVarArgPropagation,
 }
 
 var summaryBuiltin = map[string]Summary{}
@@ -290,9 +295,10 @@ var summaryEncoding = map[string]Summary{
 		[][]int{{0}, {0, 1}},
 		[][]int{{0}, {0}},
 	},
+	// func (dec *Decoder) UseNumber()
 	"(*encoding/json.Decoder).UseNumber": {
 		[][]int{{0}},
-		[][]int{{0}},
+		[][]int{{}},
 	},
 	// func NewEncoder(w io.Writer) *Encoder
 	"encoding/json.NewEncoder": SingleVarArgPropagation,
@@ -342,7 +348,7 @@ var summaryFlag = map[string]Summary{
 	//func BoolVar(p *bool, name string, value bool, usage string)
 	"flag.BoolVar": {
 		[][]int{{0}, {1}, {0, 2}, {3}},
-		[][]int{{0}, {}, {0}, {}},
+		[][]int{{}, {}, {}, {}},
 	},
 	//func Duration(name string, value time.Duration, usage string) *time.Duration
 	"flag.Duration": {
@@ -352,7 +358,7 @@ var summaryFlag = map[string]Summary{
 	//func DurationVar(p *time.Duration, name string, value time.Duration, usage string)
 	"flat.DurationVar": {
 		[][]int{{0}, {1}, {0, 2}, {3}},
-		[][]int{{0}, {}, {0}, {}},
+		[][]int{{}, {}, {}, {}},
 	},
 	//func Float64(name string, value float64, usage string) *float64
 	"flag.Float64": {
@@ -362,7 +368,7 @@ var summaryFlag = map[string]Summary{
 	//func Float64Var(p *float64, name string, value float64, usage string)
 	"flag.Float64Var": {
 		[][]int{{0}, {1}, {0, 2}, {3}},
-		[][]int{{0}, {}, {0}, {}},
+		[][]int{{}, {}, {}, {}},
 	},
 	//func Int(name string, value int, usage string) *int
 	"flag.Int": {
@@ -377,12 +383,12 @@ var summaryFlag = map[string]Summary{
 	//func Int64Var(p *int64, name string, value int64, usage string)
 	"flat.Int64Var": {
 		[][]int{{0}, {1}, {0, 2}, {3}},
-		[][]int{{0}, {}, {0}, {}},
+		[][]int{{}, {}, {}, {}},
 	},
 	//func IntVar(p *int, name string, value int, usage string)
 	"flag.IntVar": {
 		[][]int{{0}, {1}, {0, 2}, {3}},
-		[][]int{{0}, {}, {0}, {}},
+		[][]int{{}, {}, {}, {}},
 	},
 	//func NArg() int
 	//func NFlag() int
@@ -398,7 +404,7 @@ var summaryFlag = map[string]Summary{
 	//func StringVar(p *string, name string, value string, usage string)
 	"flag.StringVar": {
 		[][]int{{0}, {1}, {0, 2}, {3}},
-		[][]int{{0}, {}, {0}, {}},
+		[][]int{{}, {}, {}, {}},
 	},
 	//func TextVar(p encoding.TextUnmarshaler, name string, value encoding.TextMarshaler, ...)
 	//func Uint(name string, value uint, usage string) *uint
@@ -414,12 +420,12 @@ var summaryFlag = map[string]Summary{
 	//func Uint64Var(p *uint64, name string, value uint64, usage string)
 	"flag.Uint64Var": {
 		[][]int{{0}, {1}, {0, 2}, {3}},
-		[][]int{{0}, {}, {0}, {}},
+		[][]int{{}, {}, {}, {}},
 	},
 	//func UintVar(p *uint, name string, value uint, usage string)
 	"flag.UintVar": {
 		[][]int{{0}, {1}, {0, 2}, {3}},
-		[][]int{{0}, {}, {0}, {}},
+		[][]int{{}, {}, {}, {}},
 	},
 	//func UnquoteUsage(flag *Flag) (name string, usage string)
 	//func Var(value Value, name string, usage string)
@@ -541,11 +547,12 @@ var summaryIo = map[string]Summary{
 
 var summaryLog = map[string]Summary{
 	"log.Debugf": {[][]int{{}, {0, 1}}, [][]int{{}, {0}}},
-	"log.Printf": {[][]int{{}, {0, 1}}, [][]int{{}, {0}}},
+	// func Printf(format string, v ...any)
+	"log.Printf": {[][]int{{}, {0, 1}}, [][]int{{}, {}}},
 	// func (l *Logger) Printf(v ...any)
 	"(*log.Logger).Print": {
 		[][]int{{0}},
-		[][]int{{}, {}, {}},
+		[][]int{{}, {}},
 	},
 	// func (l *Logger) Printf(format string, v ...any)
 	"(*log.Logger).Printf": {
@@ -655,12 +662,12 @@ var summaryNet = map[string]Summary{
 	// func (r *Request) WithContext(ctx context.Context) *Request
 	"(*net/http.Request).WithContext": {
 		[][]int{{0}, {1}}, // context does not taint receiver
-		[][]int{{0}, {1}},
+		[][]int{{0}, {0}}, // but the returned request carries the context
 	},
 	// func Parse(rawURL string) (*URL, error)
 	"net/url.Parse": {
 		[][]int{{}},
-		[][]int{{0, 1}, {0, 1}},
+		[][]int{{0, 1}},
 	},
 }
 
@@ -951,7 +958,7 @@ var summaryStrConv = map[string]Summary{
 	// func(s string, base int, bitSize int) (i int64, err error)
 	"strconv.ParseInt": {[][]int{{0}, {1}, {2}}, [][]int{{0}, {0}, {0}}},
 	// func ParseFloat(s string, bitSize int) (float64, error)
-	"strconv.ParseFloat": {[][]int{{0}, {1}, {2}}, [][]int{{0}, {0}, {0}}},
+	"strconv.ParseFloat": {[][]int{{0}, {1}}, [][]int{{0}, {0}}},
 	// func Quote(s string) string
 	"strconv.Quote": SingleVarArgPropagation,
 	// func Unquote(s string) (string, error)
@@ -988,7 +995,7 @@ var summaryStrings = map[string]Summary{
 	// func Join(elems []string, sep string) string {
 	"strings.Join": {
 		[][]int{{0}, {1}},
-		[][]int{{0}, {1}},
+		[][]int{{0}, {0}}, // the separator is part of the result
 	},
 	// func LastIndex(s string, substr string) int
 	"strings.LastIndex": {
@@ -1130,8 +1137,12 @@ var summarySync = map[string]Summary{
 		[][]int{{0}, {0, 1}},
 		[][]int{{0}, {}},
 	},
-	"(*sync.Map).Load":   SingleVarArgPropagation,
-	"(*sync.Map).Delete": SingleVarArgPropagation,
+	"(*sync.Map).Load": SingleVarArgPropagation,
+	// func (m *Map) Delete(key any)
+	"(*sync.Map).Delete": {
+		[][]int{{0}},
+		[][]int{{}},
+	},
 	"(*sync.Mutex).Unlock": {
 		[][]int{{0}},
 		[][]int{{}},
@@ -1204,8 +1215,12 @@ var summaryTime = map[string]Summary{
 	"(time.Duration).Hours":   SingleVarArgPropagation,
 	"(time.Duration).Days":    SingleVarArgPropagation,
 	// func Until(t Time) Duration
-	"time.Until":          SingleVarArgPropagation,
-	"(*time.Ticker).Stop": SingleVarArgPropagation,
+	"time.Until": SingleVarArgPropagation,
+	// func (t *Ticker) Stop()
+	"(*time.Ticker).Stop": {
+		[][]int{{0}},
+		[][]int{{}},
+	},
 	// func (t Time) Add(d Duration) Time
 	"(time.Time).Add": TwoArgPropagation,
 	// func (t Time) After(d Duration) Time
